@@ -96,8 +96,11 @@ class NetworkxGraph(AbstractGraph):
             child: lowest element in the module hierarchy
         """
         all_modules = parent_modules + [child]
-        for parent, child in zip(all_modules[:-1], all_modules[1:]):
+        # all parents have to exist before they can be connected: an edge is only created between existing nodes
+        for parent in parent_modules:
             self._create_node(parent)
+
+        for parent, child in zip(all_modules[:-1], all_modules[1:]):
             self._create_edge(parent, child, inherits=True)
 
     def _create_node(self, node: Node) -> None:
